@@ -207,7 +207,19 @@ def c16(tier, seed):
     for w in range(1, wmax + 1):
         for h in range(0, hmax + 1):
             for s in range(1, 13):
-                data = [0] * (w * h) if (w + h + s) % 2 == 0 else rbytes(rng, w * h)
+                # content: all-zero, uniform random, and the steepest edges there are (0 / 255 alternating by column, by row,
+                # in a checkerboard, or drawn from {0, 255} at random) - "accepts every image" includes every content
+                k = (w + 2 * h + 3 * s) % 6
+                if k == 0:
+                    data = [0] * (w * h)
+                elif k == 1:
+                    data = [255 * (x % 2) for y in range(h) for x in range(w)]
+                elif k == 2:
+                    data = [255 * (y % 2) for y in range(h) for x in range(w)]
+                elif k == 3:
+                    data = [rng.choice([0, 255]) for _ in range(w * h)]
+                else:
+                    data = rbytes(rng, w * h)
                 cmds.append(_img(w, h, s, data))
     rng.shuffle(cmds)
     run.drive_and_validate(cmds, "TraceDeblock", sample=3)
@@ -652,8 +664,38 @@ def c15(tier, seed):
             stuff = rng.choice([0.0, 0.0, 0.2, 0.5])
             H.decode(pg.intra_picture(rng, hdr, big=False, stuffing=stuff) if t == "I"
                      else pg.inter_picture(rng, hdr, pt=t, big=False, stuffing=stuff, mix=rng.choice([None, None, [8, 1, 0, 0, 0, 0, 0]])))
+    # a picture whose LAST macroblock is as short as a macroblock can be (INTER, nothing coded, differential 0 or +-0.5), so
+    # that only a few bits and the padding separate it from the end of the data, at every alignment - alone in its reader
+    # (nothing follows) and followed by another picture
+    for i in range(48 if tier == "quick" else 600):
+        ver = i % 2
+        for concat in (False, True):
+            H.new()
+            H.cmds[-1]["concat"] = concat
+            H.decode(pg.intra_picture(rng, sor_hdr(rng, "I", 0, 32, 16, ver), big=False, shape="dense"))
+            if not concat:
+                H.op("newreader")
+            hdr = sor_hdr(rng, "P", 1, 32, 16, ver, pei=rbytes(rng, i % 3))
+            p = dict(hdr)
+            p["mbs"] = [pg.coded_mb(rng, rng.choice([0, 0, 2, 3]), ver == 1, big=False) if i % 4 else {"k": "skip"},
+                        pg.coded_mb(rng, 0, ver == 1, cbpc=0, cbpy=0, mvd=[[rng.choice([0, 1, -1, 1]), rng.choice([0, 0, 1])]], big=False)]
+            H.decode(p)
+            if concat:
+                H.decode(pg.inter_picture(rng, sor_hdr(rng, "P", 2, 32, 16, ver), big=False, shape="sparse"))
+    # long streams: several thousand bytes through ONE reader (whatever the reader keeps of what it has consumed must not
+    # matter, however much that is); every call must succeed and report its own header
+    for mode in (["sor", "plus"] if tier == "quick" else ["sor", "plus", "sor", "sor", "plus", "sor"]):
+        H.new(sor=(mode == "sor"))
+        H.cmds[-1]["concat"] = True
+        ver = rng.randrange(2)
+        for k in range(170 if tier == "quick" else 600):
+            t = "I" if k % 25 == 0 else "P"
+            hdr = sor_hdr(rng, t, k % 256, 16, 16, ver) if mode == "sor" else pg.header("plus", t, tr=k % 256, q=rng.randrange(1, 32), w=16, h=16)
+            pic = pg.intra_picture(rng, hdr, big=False, shape="dense") if t == "I" else pg.inter_picture(rng, hdr, big=False, shape="dense", mix=[0, 4, 1, 2, 1, 1, 1])
+            H.decode(pic, opaque=True, expect="ok", planes=False, why="long-stream")
     npics = sum(1 for c in H.cmds if c["op"] == "decode")
     enc = concat_delivery(run.encode(H.cmds))
+    run.notes["longest_stream_bytes"] = max([len(c["bytes"]) for c in enc if c["op"] == "append"] + [0])
     run.drive_and_validate(enc, "TraceDecoder", group=hkey, sample=2)
     run.evaluations = npics
     run.nontrivial = H.n
@@ -765,6 +807,32 @@ def c06(tier, seed):
                 H.op("newreader")
                 hdr["w"], hdr["h"] = w, h
             H.decode(pg.inter_picture(rng, hdr, mix=[8, 2, 1, 1, 1, 0, 0], big=False, shape="one"))
+    # ... and every history of the size model (Format.tla: intra / predicted picture x transmits size A, size B or none;
+    # length 4, 5 in thorough) exported by TLC and replayed: the model says which calls must be accepted and at which size,
+    # TraceDecoder demands the same of the code (FormatKnown, ExpectOk) and compares every picture in pixel mode
+    run.model_check("MCFormat", "MCFormat-current", workers=2)
+    fgens = run_gen_bfs(run, "MCFormat", "MCFormatGen" if not thorough else "MCFormatGen5")
+    fgens = [g for g in fgens if not any(o[0] == "I" and o[1] == 0 for o in g["ops"])]      # an intra picture without a size is
+    run.notes["size_model_histories_replayed"] = len(fgens)                                   # no valid picture: not claimed
+    size_of = {1: (16, 16), 2: (32, 16)}
+    for g in fgens:
+        H.new(sor=False)
+        have = 0
+        for (kind, sent, verdict, rs) in g["ops"]:
+            H.op("newreader")
+            w, h = size_of[sent] if sent else (size_of[have] if have else (16, 16))
+            hdr = pg.header("plus", kind, tr=rng.randrange(256), q=rng.randrange(1, 32), w=w, h=h)
+            if not sent:
+                hdr["ufep0"] = 1
+            if kind == "I":
+                H.decode(pg.intra_picture(rng, hdr, big=False, shape="one"))
+            else:
+                p = pg.inter_picture(rng, hdr, big=False, shape="one", mix=[6, 3, 0, 1, 0, 0, 0])
+                if not any(m["k"] == "skip" for m in p["mbs"]):
+                    p["mbs"][-1] = {"k": "skip"}
+                H.decode(p)
+            if verdict == "ok":
+                have = rs
     # extreme aspect ratios of the 16-bit size code (opaque mode: outcome, shapes and the reported size are checked)
     for (w, h) in [(65535, 1), (1, 65535), (65521, 16), (65520, 1), (16, 65521), (4095, 17), (32768, 2)]:
         H.new()
@@ -1072,6 +1140,14 @@ def c10(tier, seed):
             ct = [c[8 * (i % 8) + i // 8] for i in range(64)]                   # and whose last columns are empty
             if any(ct[i] for i in range(64) if i >= 8) and any(ct[i] for i in range(64) if i % 8):
                 pool["full"].append({"k": "full", "c": ct})
+    # blocks written into a plane smaller than 8 x 8 (right / bottom edge of a picture whose size is no multiple of 8):
+    # every crop 1..8 x 1..8, blocks of every kind
+    for cw in range(1, 9):
+        for ch in range(1, 9):
+            if (cw, ch) == (8, 8):
+                continue
+            blocks = [rng.choice(pool[k]) for k in sorted(pool) for _ in range(2 if tier == "quick" else 12)]
+            cmds.append({"op": "idct", "set": "cropped-plane", "cw": cw, "ch": ch, "blocks": blocks})
     kinds_ = sorted(pool)
     nbatch = 60 if tier == "quick" else 3000
     for i in range(nbatch):
@@ -1199,12 +1275,13 @@ def c17(tier, seed):
     enc = run.encode(flat)
     byk = {(c["pool"], c["inst"], c["k"]): c for c in enc}
 
-    def inst_cmds(pi, ii, maxread=0, split=False):
+    def inst_cmds(pi, ii, maxread=0, split=False, stream=False):
         # replicas may get the same bytes handed out in different piece sizes, or in two deliveries with a failed attempt in
         # between (split): the result must not depend on it.  "tag" = index of the picture the command belongs to.
         out = [{"op": "new", "d": 0, "sor": True, "maxread": maxread, "tag": -1}]
         for k, (t, pic) in enumerate(pools[pi][ii]):
-            out.append({"op": "newreader", "d": 0, "tag": k})
+            if not stream or k == 0:        # stream: all pictures through one reader (only for programs of valid pictures)
+                out.append({"op": "newreader", "d": 0, "tag": k})
             if pic is None:
                 out.append({"op": "decode", "d": 0, "bytes": GARBAGE[0], "why": "garbage", "tag": k})
                 continue
@@ -1243,7 +1320,7 @@ def c17(tier, seed):
     # (c) free-running threads: 16 instances, replicas of 4 histories, repeated
     for rep in range(12 if tier == "quick" else 1000):
         pi = rep % len(pools)
-        insts = [inst_cmds(pi, (k % 4) if (k % 4) < 3 else 0, maxread=(k // 4) % 4, split=(k % 8 == 3)) for k in range(16)]
+        insts = [inst_cmds(pi, (k % 4) if (k % 4) < 3 else 0, maxread=(k // 4) % 4, split=(k % 8 == 3), stream=(k % 8 == 5)) for k in range(16)]
         groups = [[k for k in range(16) if (k % 4 if k % 4 < 3 else 0) == gsel] for gsel in range(3)]
         groups = [[k for k in range(16) if (k % 4) in (0, 1, 3)], [k for k in range(16) if k % 4 == 2]]
         cmds.append({"op": "threads", "insts": insts, "groups": groups, "mode": "free-running", "h": len(cmds)})
@@ -1256,9 +1333,10 @@ def c17(tier, seed):
         pics = []
         if kind[0] == "sor":
             _, w, h, ver = kind
-            pics = [pg.intra_picture(rng, sor_hdr(rng, "I", 0, w, h, ver), big=False),
-                    pg.inter_picture(rng, sor_hdr(rng, "P", 1, w, h, ver), big=False),
-                    pg.inter_picture(rng, sor_hdr(rng, "D", 2, w, h, ver), pt="D", big=False)]
+            pics = [pg.intra_picture(rng, sor_hdr(rng, "I", 0, w, h, ver), big=False)]
+            for k in range(1, 12):      # long enough for the reader's buffer to be drained and refilled many times
+                t = rng.choice(["P", "P", "D"])
+                pics.append(pg.inter_picture(rng, sor_hdr(rng, t, k, w, h, ver), pt=t, big=False))
         elif kind[0] == "base":
             pics = [pg.intra_picture(rng, pg.header("base", "I", tr=0, q=rng.randrange(1, 32), fmt=1), big=False, shape="one"),
                     pg.inter_picture(rng, pg.header("base", "P", tr=1, q=rng.randrange(1, 32), fmt=1), big=False, shape="one")]
@@ -1284,11 +1362,12 @@ def c17(tier, seed):
             sflat.append({"op": "x", "pic": pic, "opaque": True, "si": si, "k": k})
     senc = run.encode(sflat)
 
-    def stream_cmds(si):
+    def stream_cmds(si, one_reader=False):
         out = [{"op": "new", "d": 0, "sor": kinds_[si][0] == "sor", "tag": -1}]
         for c in senc:
             if c["si"] == si:
-                out.append({"op": "newreader", "d": 0, "tag": c["k"]})
+                if not one_reader or c["k"] == 0:
+                    out.append({"op": "newreader", "d": 0, "tag": c["k"]})
                 out.append({"op": "decode", "d": 0, "bytes": c["bytes"], "opaque": True, "planes": True, "why": "stream-" + kinds_[si][0], "tag": c["k"]})
         return out
     pairs = [(x, y) for x in range(len(kinds_)) for y in range(len(kinds_)) if x != y]
@@ -1305,6 +1384,10 @@ def c17(tier, seed):
                      "mode": "after-another-stream", "xkey": key, "xinst": 1, "h": len(cmds)})
         cmds.append({"op": "threads", "insts": [cy, cx], "order": [0] * len(cy) + [1] * len(cx), "fresh": True, "groups": [],
                      "mode": "after-another-stream-two-threads", "xkey": key, "xinst": 1, "h": len(cmds)})
+        # ... and X alone again with all its pictures through ONE reader instead of one reader per picture
+        c1 = stream_cmds(x, one_reader=True)
+        cmds.append({"op": "threads", "insts": [c1], "order": [0] * len(c1), "single": True, "fresh": True, "groups": [],
+                     "mode": "alone-one-reader", "xkey": key, "xinst": 0, "h": len(cmds)})
     run.notes["cross_process_pairs"] = len(sel_pairs)
     # fresh processes between repetitions: one driver process per shard, many shards
     run.drive_and_validate(cmds, "TraceDecoder", nshards=32 if tier == "quick" else 64, post_fn=split_threads, sample=1,
@@ -1358,6 +1441,33 @@ def c13(tier, seed):
         H.new()
         H.decode(pg.intra_picture(rng, sor_hdr(rng, "I", 2, 0, 0, 1, sc=sc), big=False, shape="one"))
         H.op("post")
+    # runs of pictures on ONE decoder whose sizes change while the number of samples stays the same (6x4, 3x8, 8x3, ... and
+    # 4x8, 8x4, 16x2, ...): whatever the decoder keeps from earlier pictures, every picture must have ITS OWN shape
+    fams = [[(6, 4), (3, 8), (8, 3), (4, 6), (24, 1), (2, 12), (12, 2), (1, 24)], [(4, 8), (8, 4), (16, 2), (2, 16), (32, 1), (1, 32)],
+            [(16, 16), (32, 8), (8, 32), (64, 4)], [(5, 3), (3, 5), (15, 1), (1, 15)]]
+    for rep in range(12 if tier == "quick" else 200):
+        fam = rng.choice(fams)
+        H.new()
+        ver = rng.randrange(2)
+        for k in range(rng.randrange(4, 8)):
+            w, h = rng.choice(fam)
+            q = q % 31 + 1
+            H.op("newreader")
+            H.decode(pg.intra_picture(rng, pg.header("sor", "I", tr=(7 * k + rep) % 256, q=q, w=w, h=h, ver=ver), big=False, shape="sparse", dquant=False))
+            H.op("post", full=True)
+            if rng.random() < 0.3:
+                H.op("cleanup")
+    # flat pictures at the extremes a decoder can produce (INTRADC 1 and 254 in every plane, all eight combinations), in sizes
+    # whose rows end in 1, 2 or 3 left-over pixels and whose last block row is cut: the post-processing must cope with
+    # colours far outside the video range wherever they stand
+    for (w, h) in [(5, 3), (7, 2), (9, 9), (13, 6), (15, 16), (6, 5), (1, 1), (2, 2), (3, 3), (16, 16)]:
+        for combo in range(8):
+            yv, bv, rv = [(1, 254)[(combo >> k) & 1] for k in range(3)]
+            q = q % 31 + 1
+            blocks = [{"dc": yv, "ev": []} for _ in range(4)] + [{"dc": bv, "ev": []}, {"dc": rv, "ev": []}]
+            H.new()
+            H.decode(one_mb_intra(rng, (w + combo) % 2, q, 0, 0, blocks=blocks, w=w, h=h, tr=combo))
+            H.op("post", full=True)
     npics = sum(1 for c in H.cmds if c["op"] == "post")
     enc = run.encode(H.cmds)
     run.drive_and_validate(enc, "TraceDecoder", group=hkey, sample=2, also=["TracePost"])
@@ -1552,6 +1662,22 @@ def c01(tier, seed):
                 call(c["bytes"][:k] + rbytes(rng, n), "valid-header-then-random")
             else:
                 call(b if r_ < 0.93 else rbytes(rng, n), "random-bytes")
+        # (f) many calls through ONE reader (a stream): valid pictures of all kinds one after the other - their ends fall on every
+        #     bit alignment, so the reader's buffer is drained and refilled at every phase - with a corrupted one now and then
+        for i in range(40 * nrep):
+            sor = rng.random() < 0.8
+            H.new(sor=sor, maxread=rng.choice([0, 0, 0, 1, 5]))
+            H.op("newreader")
+            pool_ = [c for c in encbase if c["sor"] == sor]
+            for k in range(rng.randrange(6, 30)):
+                c = rng.choice(pool_)
+                if rng.random() < 0.9:
+                    b, why = c["bytes"], "stream-valid-" + c["tag"]
+                else:
+                    b, why = mutate(rng, c["bytes"])
+                    why = "stream-" + why
+                H.decode(None, bytes=b, planes=False, why=why, guard_size=True)
+                ncalls[0] += 1
         # (e) every header the clause-5.1 model can express (PictureHeader.tla: all OPPTYPE / MPPTYPE modes, custom clock
         #     and extended TR, PAR, UUI, SSS, layers, RPS fields, PB types, UFEP = 000 inheritance) in front of REAL
         #     macroblock data taken from the pictures above (bits after the header), in histories
@@ -1721,6 +1847,16 @@ def c05(tier, seed):
                 pic = json.loads(json.dumps(ipic if target == "I" else ppic))
                 H.cmds.append({"op": "split", "d": 0, "h": H.n, "pic": pic, "cut": cut})
                 nsplit += 1
+    # ... and of LARGE pictures (several thousand bytes: whatever the reader does with the bytes it has gone through - keep,
+    # compact, drop - a failed call must leave it where it was): cuts late in the data; judged without recomputing pixels
+    # (the first call's outcome, the unchanged state and the reader probe)
+    for rep in range(2 if tier == "quick" else 24):
+        ver = rep % 2
+        big = pg.intra_picture(rng, sor_hdr(rng, "I", 3, 144, 112, ver), big=True, shape="dense")
+        for frac in ([0.55, 0.8, 0.93, 0.999] if tier == "quick" else [0.1, 0.3, 0.5, 0.55, 0.7, 0.8, 0.9, 0.93, 0.97, 0.999]):
+            H.new(maxread=rng.choice([0, 0, 3]))
+            H.cmds.append({"op": "split", "d": 0, "h": H.n, "pic": json.loads(json.dumps(big)), "frac": frac, "large": True})
+            nsplit += 1
     enc = run.encode(H.cmds)
     # expand "split" pseudo commands: append first part, decode (opaque), append rest, decode (pixel, pre)
     out = []
@@ -1728,11 +1864,17 @@ def c05(tier, seed):
         if c["op"] != "split":
             out.append(c)
             continue
-        b, cut = c["bytes"], c["cut"]
+        b = c["bytes"]
+        cut = c["cut"] if "cut" in c else max(1, min(len(b) - 1, int(len(b) * c["frac"])))
         out.append({"op": "append", "d": 0, "h": c["h"], "bytes": b[:cut]})
-        out.append({"op": "decode", "d": 0, "h": c["h"], "bytes": [], "pre": True, "why": "split-first-part"})
+        out.append({"op": "decode", "d": 0, "h": c["h"], "bytes": [], "pre": True, "why": "split-first-part", "planes": not c.get("large", False)})
         out.append({"op": "append", "d": 0, "h": c["h"], "bytes": b[cut:]})
-        out.append({"op": "decode", "d": 0, "h": c["h"], "pic": c["pic"], "bytes": b, "pre": True})
+        if c.get("large"):
+            run.notes["large_picture_bytes"] = max(run.notes.get("large_picture_bytes", 0), len(b))
+            out.append({"op": "decode", "d": 0, "h": c["h"], "pic": c["pic"], "bytes": b, "pre": True, "opaque": True, "planes": False,
+                        "why": "large-picture-retry"})
+        else:
+            out.append({"op": "decode", "d": 0, "h": c["h"], "pic": c["pic"], "bytes": b, "pre": True})
     npics = sum(1 for c in out if c["op"] == "decode")
     run.drive_and_validate(out, "TraceDecoder", group=hkey, sample=2, stat_fn=decode_stat)
     run.evaluations = npics
@@ -1758,6 +1900,7 @@ def instantiate_history(H, rng, ops, w=16, h=16, ver=None, newreader=True, sor=T
     """turn a model history [["I",tr],["P",tr],["D",tr],["R"],["C"]] into decoder commands"""
     ver = rng.randrange(2) if ver is None else ver
     H.new(sor=sor)
+    have = False        # standard mode: a picture has been decoded (a UFEP = 000 header may follow)
     for op in ops:
         k = op[0]
         if k == "C":
@@ -1765,6 +1908,27 @@ def instantiate_history(H, rng, ops, w=16, h=16, ver=None, newreader=True, sor=T
             continue
         if newreader:
             H.op("newreader")
+        if not sor and k != "R":
+            # standard mode: custom-format PLUSPTYPE headers; temporal references above 255 need the custom picture clock
+            # (CPCFC + ETR, ten bits); predicted pictures may leave OPPTYPE out (UFEP = 000) when their TR has eight bits
+            k = "P" if k == "D" else k
+            hdr = pg.header("plus", k, tr=op[1], q=rng.randrange(1, 32), w=w, h=h)
+            if op[1] > 255 or rng.random() < 0.3:
+                hdr["pcf"], hdr["cpcfc"] = 1, rng.randrange(256)
+            elif k == "P" and have and rng.random() < 0.4:
+                hdr["ufep0"] = 1
+            if k == "I":
+                H.decode(pg.intra_picture(rng, hdr, big=False, shape=rng.choice(["one", "sparse"])))
+                have = True
+            else:
+                p = pg.inter_picture(rng, hdr, big=False, shape="sparse", mix=[3, 5, 1, 2, 1, 0, 0])
+                if all(m["k"] == "mb" and m["t"] in (3, 4) for m in p["mbs"] if m["k"] != "stuff"):
+                    p["mbs"][-1] = {"k": "skip"}
+                H.decode(p)
+            continue
+        if not sor:
+            H.decode(None, bytes=rng.choice(GARBAGE), why="garbage")
+            continue
         if k == "R":
             # a rejected call: garbage, or a picture that fails in the header, macroblock or block layer
             if rng.random() < 0.4:
@@ -1835,18 +1999,38 @@ def c04(tier, seed):
                 tr = rng.choice([tr, (tr + 1) % 256, (tr + 1) % 256, (tr + 1) % 256, rng.randrange(256), 255, 0])
                 ops.append([kind, tr])
         instantiate_history(H, rng, ops, w=rng.choice([16, 17, 32]), h=rng.choice([16, 9]))
+    # (d) standard mode with the custom picture clock: ten-bit temporal references (ETR), among them values that agree in
+    #     their low eight bits (t, t + 256, t + 512): a store keyed by the temporal reference must keep them apart
+    nstd = 0
+    for i in range(30 if tier == "quick" else 500):
+        n = rng.randrange(4, 16)
+        base_tr = rng.randrange(256)
+        ops = [["I", rng.choice([base_tr, base_tr + 256 * rng.randrange(4)])]]
+        for k in range(n):
+            r_ = rng.random()
+            if r_ < 0.1:
+                ops.append(["R"])
+            elif r_ < 0.2:
+                ops.append(["C"])
+            else:
+                tr = rng.choice([base_tr, base_tr + 256, base_tr + 512, base_tr + 768, (base_tr + 1) % 256, rng.randrange(1024), 1023, 0])
+                ops.append([rng.choices(["I", "P"], weights=[2, 6])[0], tr])
+        instantiate_history(H, rng, ops, w=rng.choice([16, 20, 32]), h=rng.choice([16, 12]), sor=False)
+        nstd += 1
     npics = sum(1 for c in H.cmds if c["op"] == "decode")
     enc = run.encode(H.cmds)
     run.drive_and_validate(enc, "TraceDecoder", group=hkey, sample=2)
     run.evaluations = npics
     run.nontrivial = H.n
     run.notes["histories"] = H.n
+    run.notes["standard_mode_histories_with_10_bit_temporal_references"] = nstd
     run.notes["decode_calls"] = npics
     return run.finish(
         rule="model: all histories over {I,P,D,Reject,Cleanup} of length <= 6 with TRs from {0,1,255} (two-layer Decoder.tla, "
              "invariant RefIsLastNonDisposable); implementation: every model history of length %d exported by TLC, simulated "
              "longer ones, and random histories of up to 40 calls with arbitrary 8-bit TRs, each instantiated with distinct "
-             "16x16 pictures (I: fresh content; P/D: not-coded + moved + residual macroblocks), one reader per call; after every "
+             "16x16 pictures (I: fresh content; P/D: not-coded + moved + residual macroblocks), one reader per call, plus standard-"
+             "mode histories with ten-bit temporal references (custom picture clock, values equal modulo 256); after every "
              "call the last picture's planes and header, the hook state (last, ref, store keys) and the predicted picture's "
              "planes are validated against the requirement-level model; distinct = histories" % (3 if tier == "quick" else 4))
 
